@@ -260,6 +260,16 @@ def next (code : Code) (s : MState) (obs : Nat) : Except String MState :=
         | [] => .error "return-without-gosub-frame"
       | _ => .error "unresolved-target"
 
+/-- the VM's `return_marks` (top first): for every pending `PushRet` the recorded heights of the register
+stack, of `go_sub_address_stack`, of the value stack and of the variable-path stack -/
+def retMarks (fs : List MFrame) : List (Nat × Nat × Nat × Nat) :=
+  (fs.filter (·.kind == .call)).map fun f => (f.marks.reg, f.gs, f.marks.value, f.marks.path)
+
+/-- the VM's `go_sub_marks` (top first): for every pending `GoSub` the recorded heights of the register
+stack and of the value stack -/
+def gosubMarks (fs : List MFrame) : List (Nat × Nat) :=
+  (fs.filter (·.kind == .gosub)).map fun f => (f.marks.reg, f.marks.value)
+
 /-- what the real VM showed before one executed instruction -/
 structure Obs where
   pc : Nat
@@ -268,6 +278,10 @@ structure Obs where
   rets : List Nat
   /-- `go_sub_address_stack`, top first -/
   gosubs : List Nat
+  /-- `return_marks`, top first (hook: `Snapshot.return_marks`) -/
+  retMarks : List (Nat × Nat × Nat × Nat)
+  /-- `go_sub_marks`, top first (hook: `Snapshot.go_sub_marks`) -/
+  gosubMarks : List (Nat × Nat)
 
 inductive Verdict where
   /-- every observation agreed with the machine -/
@@ -282,6 +296,11 @@ def sameDepths (s : MState) (o : Obs) : Bool := s.h == o.h
 def sameAddrs (s : MState) (o : Obs) : Bool :=
   retAddrs s.frames == o.rets && gosubAddrs s.frames == o.gosubs
 
+/-- the recorded heights: the stored components of the pending frames are what the VM keeps in
+`return_marks` / `go_sub_marks` (same length as the address stacks, entry by entry) -/
+def sameMarks (s : MState) (o : Obs) : Bool :=
+  retMarks s.frames == o.retMarks && gosubMarks s.frames == o.gosubMarks
+
 /-- runs the machine along a list of pcs (`none`: some step was not possible) -/
 def runPcs (code : Code) : MState → List Nat → Option MState
   | s, [] => some s
@@ -290,14 +309,15 @@ def runPcs (code : Code) : MState → List Nat → Option MState
     | .ok s' => runPcs code s' rest
     | .error _ => none
 
-/-- runs the machine along the observed pcs, comparing pc, the five absolute depths and the contents of
-the two address stacks before every instruction -/
+/-- runs the machine along the observed pcs, comparing pc, the five absolute depths, the contents of
+the two address stacks and the recorded heights before every instruction -/
 def replay (code : Code) : MState → List Obs → Nat → Verdict
   | _, [], k => .ok k
   | s, o :: rest, k =>
     if s.pc != o.pc then .differ k "pc" s
     else if !sameDepths s o then .differ k "depths" s
     else if !sameAddrs s o then .differ k "address-stacks" s
+    else if !sameMarks s o then .differ k "marks" s
     else match rest with
       | [] => .ok (k + 1)
       | o' :: _ =>
